@@ -93,6 +93,7 @@ type Obligation struct {
 }
 
 type FuncTr struct {
+	lateCells map[*ssa.Alloc]bool
 	bindHit map[int]bool
 	anchorHit map[int]bool // anchored assertions that matched at least one call
 	curCallArgs []Val
@@ -673,6 +674,7 @@ func (ft *FuncTr) newEnv(st *State) *SpecEnv {
 // ---------- driver ----------
 
 type FuncResult struct {
+	Warn   []string // clauses that could not be placed (reported as undecided; obligations are kept)
 	Fn     *ssa.Function
 	Obls   []*Obligation
 	Decls  string
@@ -745,15 +747,15 @@ func verifyFuncPass(w *World, fn *ssa.Function, c *Contract, eager map[string]bo
 	}
 	if res.Err == nil {
 		// an anchored assertion that matched no call was never checked: that is a hole, not a pass
+		// (reported as undecided; the function's other obligations are still checked)
 		for i, b := range c.Binds {
 			if !ft.bindHit[i] {
-				res.Err = fmt.Errorf("%s: binds %s (%s:%d) matched no store in the function", fn.String(), b.Field, b.File, b.Line)
+				res.Warn = append(res.Warn, fmt.Sprintf("%s: binds %s (%s:%d) matched no store in the function", fn.String(), b.Field, b.File, b.Line))
 			}
 		}
 		for i, a := range c.Anchored {
 			if !ft.anchorHit[i] {
-				res.Err = fmt.Errorf("%s: assert %s %s (%s:%d) matched no call in the function", fn.String(), map[bool]string{true: "before", false: "after"}[a.Before], a.Callee, a.C.File, a.C.Line)
-				break
+				res.Warn = append(res.Warn, fmt.Sprintf("%s: assert %s %s (%s:%d) matched no call in the function", fn.String(), map[bool]string{true: "before", false: "after"}[a.Before], a.Callee, a.C.File, a.C.Line))
 			}
 		}
 	}
@@ -1165,7 +1167,9 @@ func (ft *FuncTr) block(b *ssa.BasicBlock) error {
 			if !am.whole && len(am.locs) == 0 {
 				ft.h.noteFreshFrame(before, after, preNext)
 			} else if !am.whole {
-				ft.h.noteFreshFrameCond(before, after, ft.h.nextID(ft.init), ft.locsFreshCond(am.locs))
+				if c := ft.locsEmptyCond(am.locs); c.S != "false" {
+					ft.h.noteFreshFrameCond(before, after, preNext, c)
+				}
 			}
 		}
 		for _, n := range sortedKeys(l.modGhost) {
@@ -1676,17 +1680,18 @@ func (ft *FuncTr) leak() {
 	}
 }
 
-// locsFreshCond: every written location lies in an object allocated since function entry; a frame with such
-// locations keeps all cells of objects allocated before function entry.
-func (ft *FuncTr) locsFreshCond(locs []Loc) *Term {
-	initNext := ft.h.nextID(ft.init)
+// locsEmptyCond: every location of a location-level frame is the element range of a slice of capacity 0: such a
+// slice has no element cells, so the frame writes only objects allocated after its pre-state (appends to it
+// reallocate). (A frame over elements of an older array gives no such guarantee: that array may be reachable from
+// older objects, so predicates over them may change.)
+func (ft *FuncTr) locsEmptyCond(locs []Loc) *Term {
 	var cs []*Term
 	for _, l := range locs {
 		switch l.kind {
 		case LocExact:
-			cs = append(cs, And(Not(IsNil(l.t)), Le(initNext, PObjID(l.t))))
+			return TFalse
 		default:
-			cs = append(cs, Or(IsNil(SlcArr(l.t)), Le(initNext, PObjID(SlcArr(l.t)))))
+			cs = append(cs, Eq(SlcCap(l.t), IntLit(0)))
 		}
 	}
 	return And(cs...)
